@@ -70,8 +70,11 @@ ReqFlags(s) == [i \in 1..Len(s.req) |-> Flag(s.csend, s.cmin, s.reqsize[i])]
 ReqEnc(s)   == IF IsUnaryConnect(s) THEN (IF ReqFlags(s)[1] = 1 THEN s.csend ELSE "")
                ELSE IF Identity(s.csend) THEN "" ELSE s.csend
 
+\* a foreign client may name the proto codec implicitly: "application/grpc", "application/grpc-web"
+BareCT(s) == "rchoices" \in DOMAIN s /\ s.rchoices.BareCT /\ s.codec = "proto" /\ s.proto \in {"grpc", "grpcweb"}
+ReqCT(s) == IF BareCT(s) THEN (IF s.proto = "grpc" THEN "application/grpc" ELSE "application/grpc-web") ELSE CT(s)
 CStart == /\ pc = "c_start"
-          /\ wreq' = [ctype |-> CT(sc), enc |-> ReqEnc(sc), accept |-> Join(Names(sc.cacc)),
+          /\ wreq' = [ctype |-> ReqCT(sc), enc |-> ReqEnc(sc), accept |-> Join(Names(sc.cacc)),
                       flags |-> ReqFlags(sc), ids |-> Ids(sc.req)]
           /\ pc' = "h_neg"
           /\ UNCHANGED <<sc, neg, hsaw, wresp, csaw>>
